@@ -1,7 +1,9 @@
 (* Props/C12.v — Scheduled checks wait for the policy's time and minimum wait.
-   PARTIAL at the level of theorems: the join semantics of the wait is proved below for the model's select function;
-   "ask, announce, arm exactly" and the reboot-wait rules are decided by trace equality on the policy/schedule/timer
-   projection (proj_c12) with all orders and subsets of firings in the generated scripts. *)
+   Two parts.  (1) Which timers must have fired before the machine leaves a wait is a theorem about the model's select
+   function (firings are inputs of the environment, not actions, so no trace monitor can see them).  (2) "Ask, announce,
+   arm exactly" is the monitor theorem C12_arming_monitor_accepts_every_model_trace.  Not a theorem: that the reboot
+   question is re-asked only on its own timer or an on-demand request (decided by trace equality on the policy / timer
+   projection and, for the on-demand half, by the run-time rule of C11's monitor). *)
 Require Import Verif.Model.Time Verif.Base.Bytes Verif.Model.Env Verif.Model.SM Verif.Proofs.SMPure.
 Open Scope Z_scope.
 
@@ -25,3 +27,38 @@ Example C12_ex_partial_firing :
 Proof. repeat split; reflexivity. Qed.
 
 Print Assumptions C12_scheduled_needs_all_timers.
+
+(* ---- the arming monitor (Model/Monitors.v step12) accepts every trace of the model ----
+   After every answer t of the policy to the next-time question the very next actions (control traffic aside) must be:
+   the schedule announcement with next update time = t, then - if t has a minimum wait - a timer for exactly that
+   duration, then a timer for exactly t's time bound; nothing else may happen until they are armed, and no second
+   question may be asked meanwhile.  A time-bound timer is never armed on any other occasion (duration timers also serve
+   the retry back-off and the reboot interval), and every schedule announced later still carries t until the next answer.
+   This covers the waits of scheduled operation and the ping waits while waiting for the reboot alike. *)
+Require Import Verif.Model.Monitors Verif.Proofs.Monitor Verif.Proofs.C12Proof Verif.Model.Proto.
+Open Scope Z_scope.
+
+Theorem C12_arming_monitor_accepts_every_model_trace :
+  forall ep cfg url cup apps e, e_trace e = [] ->
+    accepts step12 init12 (run_case ep cfg url cup apps e) = true.
+Proof. exact model_accepted_c12. Qed.
+
+Section Examples.
+  Let t1 : timing := {| t_time := PWall 100; t_min := Some 7 |}.
+  Let sc (t : option timing) : sched := {| s_last_update := None; s_last_check := None; s_next := t |}.
+  Let ps : Env.pstate := {| ps_poll := None; ps_fails := 0; ps_proxied := 0 |}.
+  Let ask := APolicy (QNextTime [] (sc None) ps) (PTiming t1).
+  Example C12_monitor_accepts :
+    accepts step12 init12 [ask; AEvent (EvSchedule (sc (Some t1))); ATimer (WFor 7); ATimer (WUntil (PWall 100))] = true.
+  Proof. vm_compute. reflexivity. Qed.
+  (* minimum wait not armed; armed for another duration; announcement missing; another time bound; a time-bound timer out of the blue *)
+  Example C12_monitor_rejects :
+    accepts step12 init12 [ask; AEvent (EvSchedule (sc (Some t1))); ATimer (WUntil (PWall 100))] = false
+    /\ accepts step12 init12 [ask; AEvent (EvSchedule (sc (Some t1))); ATimer (WFor 8)] = false
+    /\ accepts step12 init12 [ask; ATimer (WFor 7)] = false
+    /\ accepts step12 init12 [ask; AEvent (EvSchedule (sc (Some t1))); ATimer (WFor 7); ATimer (WUntil (PWall 101))] = false
+    /\ accepts step12 init12 [ATimer (WUntil (PWall 100))] = false.
+  Proof. vm_compute. repeat split; reflexivity. Qed.
+End Examples.
+
+Print Assumptions C12_arming_monitor_accepts_every_model_trace.
